@@ -3,6 +3,8 @@ CONSTANTS
   MaxListeners = 3
   NB = 3
   MaxOps = 3
+  EmitEvery = 1
+  LieMode = FALSE
   SyncListeners = 2
 CONSTRAINT Bound
 VIEW View
